@@ -318,6 +318,7 @@ func (c *checker) viol(sig string, n *node, f string, a ...any) {
 
 func (c *checker) evalP(n *node) {
 	c.r.Evaluations++
+	drv.Tick()
 	s, ref := n.buildP()
 	c.r.States += len(ref) + 1
 	if len(ref) >= 2 {
@@ -362,6 +363,7 @@ func (c *checker) evalP(n *node) {
 
 func (c *checker) evalQ(n *node) {
 	c.r.Evaluations++
+	drv.Tick()
 	s, ref := n.buildQ()
 	c.r.States += len(ref) + 1
 	if len(ref) >= 2 {
